@@ -29,6 +29,10 @@ func main() {
 	if len(os.Args) > 2 {
 		every, _ = strconv.Atoi(os.Args[2])
 	}
+	mode := "stmt" // "assign": the calls on the right of `x, err := f(a)` / `x = f(a)` / `return f(a)` instead, helpers returning the results
+	if len(os.Args) > 3 {
+		mode = os.Args[3]
+	}
 	fset := token.NewFileSet()
 	cfg := &packages.Config{Mode: packages.LoadSyntax, Dir: root, Fset: fset, Tests: false}
 	pkgs, err := packages.Load(cfg, "./...")
@@ -148,12 +152,44 @@ func main() {
 				}
 				k := 0
 				ast.Inspect(fd.Body, func(nd ast.Node) bool {
-					es, ok := nd.(*ast.ExprStmt)
-					if !ok {
+					var call *ast.CallExpr
+					var es ast.Node
+					switch x := nd.(type) {
+					case *ast.ExprStmt:
+						if mode == "iife" {
+							// the call statement wrapped in a function literal called on the spot
+							if c, isCall := x.X.(*ast.CallExpr); isCall {
+								if tv, has := p.TypesInfo.Types[c.Fun]; has && !tv.IsType() && !tv.IsBuiltin() {
+									cand++
+									if cand%every == 0 {
+										edits = append(edits, edit{off(x.Pos()), off(x.End()), "func() { " + text(x) + " }()"})
+										total++
+									}
+								}
+							}
+							return false
+						}
+						if mode != "stmt" {
+							return true
+						}
+						call, _ = x.X.(*ast.CallExpr)
+						es = x
+					case *ast.AssignStmt:
+						if mode != "assign" || len(x.Rhs) != 1 {
+							return true
+						}
+						call, _ = x.Rhs[0].(*ast.CallExpr)
+						es = call
+					case *ast.ReturnStmt:
+						if mode != "assign" || len(x.Results) != 1 {
+							return true
+						}
+						call, _ = x.Results[0].(*ast.CallExpr)
+						es = call
+					default:
 						return true
 					}
-					call, ok := es.X.(*ast.CallExpr)
-					if !ok {
+					if call == nil {
 						return true
 					}
 					if tv, has := p.TypesInfo.Types[call.Fun]; !has || tv.IsType() || tv.IsBuiltin() {
@@ -226,13 +262,39 @@ func main() {
 						}
 						argsInHelper = append(argsInHelper, h)
 					}
+					results, ret := "", ""
+					if mode == "assign" {
+						var rs []string
+						switch rt := p.TypesInfo.Types[call].Type.(type) {
+						case *types.Tuple:
+							for i := 0; i < rt.Len(); i++ {
+								ts, good := typeStr(rt.At(i).Type())
+								if !good {
+									return true
+								}
+								rs = append(rs, ts)
+							}
+						case nil:
+							return true
+						default:
+							ts, good := typeStr(rt)
+							if !good {
+								return true
+							}
+							rs = append(rs, ts)
+						}
+						if len(rs) == 0 {
+							return true
+						}
+						results, ret = " ("+strings.Join(rs, ", ")+")", "return "
+					}
 					cand++
 					if cand%every != 0 {
 						return true
 					}
 					k++
 					hn := fmt.Sprintf("%s_o%d", base, k)
-					helpers = append(helpers, fmt.Sprintf("func %s(%s) {\n\t%s(%s)\n}\n", hn, strings.Join(params, ", "), callee, strings.Join(argsInHelper, ", ")))
+					helpers = append(helpers, fmt.Sprintf("func %s(%s)%s {\n\t%s%s(%s)\n}\n", hn, strings.Join(params, ", "), results, ret, callee, strings.Join(argsInHelper, ", ")))
 					edits = append(edits, edit{off(es.Pos()), off(es.End()), hn + "(" + strings.Join(argsAtSite, ", ") + ")"})
 					total++
 					return false // do not outline calls nested in this one's arguments
@@ -246,7 +308,9 @@ func main() {
 			for _, e := range edits {
 				out = append(append(append([]byte(nil), out[:e.start]...), e.repl...), out[e.end:]...)
 			}
-			out = append(out, []byte("\n"+strings.Join(helpers, "\n"))...)
+			if len(helpers) > 0 {
+				out = append(out, []byte("\n"+strings.Join(helpers, "\n"))...)
+			}
 			if err := os.WriteFile(name, out, 0o644); err != nil {
 				panic(err)
 			}
